@@ -221,7 +221,7 @@ def process_history_twins(rep, thorough):
 
     from concurrent.futures import ThreadPoolExecutor
 
-    modes = ["none", "float32", "int"] + (["model-int", "model-float32"] if thorough else ["model-int"])
+    modes = ["none", "float32", "int", "model-knn"] + (["model-int", "model-float32"] if thorough else ["model-int"])
     with ThreadPoolExecutor(max_workers=len(modes)) as ex:
         got = dict(zip(modes, ex.map(ask, modes)))
     base = got["none"]
